@@ -5,13 +5,17 @@ graders) and the class dicts of athlib classes.  Small values are deep-copied an
 (so aliases held elsewhere stay valid); large containers (data tables) are restored by identity and their
 content is fingerprinted so that an in-place mutation is detected rather than silently carried over.
 """
-import sys, types, re, copy, hashlib, decimal
+import sys, types, re, copy, hashlib, decimal, datetime, fractions
+
+# values that are immutable and compare by value: counted as one unit, rebound rather than copied, fingerprinted by repr
+ATOMS = (str, bytes, int, float, bool, type(None), decimal.Decimal, complex, range, fractions.Fraction,
+         datetime.date, datetime.time, datetime.timedelta, datetime.tzinfo)
 
 SMALL = 20000
 
 
 def _size(v, lim=SMALL + 1, depth=0):
-    if isinstance(v, (str, bytes, int, float, bool, type(None), decimal.Decimal)):
+    if isinstance(v, ATOMS):
         return 1
     if depth > 6:
         return lim
@@ -32,7 +36,7 @@ def _size(v, lim=SMALL + 1, depth=0):
 
 
 def _immutable(v):
-    if isinstance(v, (str, bytes, int, float, bool, type(None), decimal.Decimal)):
+    if isinstance(v, ATOMS):
         return True
     if isinstance(v, (tuple, frozenset)):
         return all(_immutable(x) for x in v)
@@ -57,7 +61,7 @@ def fingerprint(v):
         elif isinstance(x, (set, frozenset)):
             h.update(repr(sorted(map(repr, x))).encode())
         else:
-            h.update(repr(x).encode() if isinstance(x, (str, bytes, int, float, bool, type(None), decimal.Decimal)) else type(x).__name__.encode())
+            h.update(repr(x).encode() if isinstance(x, ATOMS) else type(x).__name__.encode())
     walk(v)
     return h.hexdigest()
 
